@@ -295,7 +295,9 @@ func (c *Cluster) tryLockLocked(s *Session, key string, xact bool) (ok bool, hol
 	if !ls.xact {
 		t := s.txn
 		if t == nil {
-			panic("memstore: xact lock outside a transaction")
+			// the transaction ended under the caller (context cancelled): nothing to tie the lock to
+			ls.sess++
+			return true, nil
 		}
 		ls.xact = true
 		t.locks[key] = struct{}{}
